@@ -26,6 +26,13 @@ def bitmapHist (t : Array String) : String :=
     else if name = "rem" then
       let (y, ch) := Bitmap.remove x a0
       put y ((if ch then '1' else '0') :: rs)
+    else if name = "druns" then
+      let runs := ((f.getD 1 "").splitOn ",").map fun r =>
+        let p := r.splitOn "-"
+        (parseHex (p.getD 0 "0"), parseHex (p.getD 1 "0"))
+      let bits := runs.foldl (fun b (st, ln) => b ||| ((2 ^ ln - 1) <<< st)) 0
+      let card := (runs.map (·.2)).sum
+      put ⟨.runs, card, bits⟩ rs
     else if name = "clear" then put (Bitmap.clear x) rs
     else if name = "clone" then st
     else if name = "enc" then st
